@@ -35,8 +35,6 @@ RECURSIVE IsPow2(_)
 IsPow2(n) == n = 1 \/ (n > 1 /\ n % 2 = 0 /\ IsPow2(n \div 2))
 Dyadic(q) == IsPow2(q[2])                       \* exactly representable (small numerators)
 AllDyadic(s) == \A k \in 1..Len(s) : Dyadic(s[k])
-MaxOf(S) == CHOOSE k \in S : \A j \in S : j <= k
-MinOf(S) == CHOOSE k \in S : \A j \in S : k <= j
 
 (* balanced sum (recursion depth log n: bins of 101 edges) *)
 RECURSIVE BSumRange(_, _, _)
